@@ -44,6 +44,13 @@ def gen_login(rng, n=None):
 
 
 def gen_name(rng, lo=0, hi=40):
+    import harvest
+    texts = harvest.novel()["strs"]
+    if texts and rng.random() < 0.12:       # a text the tree under check has and the pinned tree has not, as it is or inside a name
+        t = rng.choice([x for x in texts if not x.startswith("hex:")] or ["x"])
+        t = rng.choice([t, t.lower(), t.upper(), "a" + t, t + "z"])
+        if lo <= len(t) <= hi:
+            return t
     script = rng.choice(list(NAMES_POOL))
     pool = NAMES_POOL[script]
     n = rng.randrange(lo, hi + 1)
@@ -76,6 +83,10 @@ def gen_irset(rng, special=None, toggle=None, dense=None, long_text=None):
     toggle = rng.random() < 0.5 if toggle is None else toggle
     dense = rng.random() < 0.5 if dense is None else dense
     rid = rng.choice(SPECIAL_IDS) if special else rng.choice(["ELEC7001", "DLK10", "AUX0" + str(rng.randrange(1000, 9999)), "X"])
+    import harvest
+    ids = harvest.strs_like(lambda x: 1 <= len(x) <= 12 and x.isalnum() and x.upper() == x)
+    if ids and special is None and rng.random() < 0.2:
+        rid = rng.choice(ids)
     keys = []
     p = 0.8 if dense else 0.25
     lo, hi = sorted((rng.randrange(16, 24), rng.randrange(24, 31)))
@@ -108,6 +119,19 @@ def gen_irset(rng, special=None, toggle=None, dense=None, long_text=None):
     if rng.random() < 0.05:
         keys.append("on_")
     rng.shuffle(keys)
+    if rng.random() < 0.12:
+        # a tiny set: one to four temperatures, each in exactly one key, listed in ascending, descending or no particular order (the
+        # lowest / highest temperature sits in a single key that may be the first or the last of the list)
+        pre = "on_" if toggle and rng.random() < 0.5 else ""
+        temps = rng.sample(range(16, 31), rng.randrange(1, 5))
+        order = rng.choice(["asc", "desc", "any"])
+        temps = sorted(temps) if order == "asc" else sorted(temps, reverse=True) if order == "desc" else temps
+        keys = []
+        for t in temps:
+            m = rng.choice(["ar", "ah"])
+            keys.append(f"{pre}{m}{t}" + rng.choice(["", "_f0", "_f2", "_f1_d1"]))
+        if rng.random() < 0.5:
+            keys.insert(rng.randrange(len(keys) + 1), rng.choice(["off", pre + "aa", pre + "ad_f1", "FUN_d1"]))
     if not keys:
         keys = ["aa"]
 
@@ -173,4 +197,16 @@ def gen_case(rng, op=None, tz=None):
     if op in ("getState", "getshutter", "getbreeze", "ctlbreeze"):
         replies.append(gen_state_reply(rng, op))
     replies += ["%02x" % rng.randrange(256) * rng.randrange(1, 20) for _ in range(3)]
-    return {"did": did, "key": key, "now": gen_now(rng), "tz": tz or rng.choice(list(H.FIXED_ZONES)), "req": req, "replies": replies}
+    case = {"did": did, "key": key, "now": gen_now(rng), "tz": tz or rng.choice(list(H.FIXED_ZONES)), "req": req, "replies": replies}
+    return settle_now(case)
+
+
+def settle_now(case):
+    """create_schedule reads the clock twice - rounded for the frame's timestamp, truncated for today's local date - and the
+    operation-level model has ONE clock reading: in the last half second of a local day (where the two readings lie on different
+    dates) the case is moved to the whole second.  That half second is C11's business (its model keeps the two readings apart)."""
+    if case["req"]["op"] == "createsched":
+        now, off = float(case["now"]), H.FIXED_ZONES.get(case.get("tz", "UTC"), 0)
+        if (int(round(now)) + off) // 86400 != (int(now // 1) + off) // 86400:
+            case = dict(case, now=float(int(now // 1)))
+    return case
